@@ -4,8 +4,10 @@ from __future__ import annotations
 
 import typing as t
 
-from .. import history
-from ..engine import Ctx, Property, Violation
+from hypothesis import strategies as st
+
+from .. import history, rfc4511, sess
+from ..engine import QUICK, THOROUGH, Ctx, Part, Property, Violation
 from ._hist import HistoryPart
 
 
@@ -39,6 +41,86 @@ class Client(HistoryPart):
         return out
 
 
+class LongSession(Part):
+    """One client session that issues hundreds of requests: ids stay positive / increasing / on the wire at every
+    magnitude (1 octet, 2 octets, sign-bit boundaries 127/128, 255/256, 32767/32768) and correlation by id still works."""
+
+    name = "long-session"
+    examples = {QUICK: 40, THOROUGH: 600}
+
+    def strategy(self, tier: str) -> t.Any:
+        n = st.sampled_from([130, 200, 260, 300] if tier == QUICK else [130, 260, 300, 1000, 33000])
+        return st.fixed_dictionaries({"n": n, "kinds": st.lists(st.sampled_from(["search", "extended"]), min_size=1, max_size=8),
+                                      "lag": st.integers(0, 5), "probe": st.integers(0, 400)})
+
+    def check(self, case: t.Any, ctx: Ctx) -> t.List[Violation]:
+        LDAPError, ProtocolError = sess.errors()
+        c = sess.new("client")
+        issued: t.List[t.Tuple[int, str]] = []
+        answered = 0
+        ctx.event("requests", case["n"])
+        ctx.nontrivial(repr(case))
+
+        def answer(upto: int) -> t.Optional[Violation]:
+            nonlocal answered
+            while answered < upto:
+                mid, what = issued[answered]
+                res = {"code": 0, "matched": "", "diag": "", "referral": None}
+                msgs = []
+                if what == "search":
+                    msgs.append({"kind": "searchResEntry", "id": mid, "controls": [], "name": "cn=e", "attributes": []})
+                    msgs.append({"kind": "searchResDone", "id": mid, "controls": [], "result": res})
+                else:
+                    msgs.append({"kind": "extendedResp", "id": mid, "controls": [], "result": res, "name": None, "value": None})
+                data = b"".join(rfc4511.encode(m) for m in msgs)
+                try:
+                    got = c.receive(data)
+                except Exception as e:
+                    return Violation("long-session:response-for-open-id-rejected", f"request {answered + 1} id {mid} ({what}): {e!r}")
+                ids = [getattr(g, "message_id", None) for g in got]
+                if ids != [m["id"] for m in msgs]:
+                    return Violation("long-session:responses-not-returned", f"request {answered + 1} id {mid}: returned ids {ids}")
+                answered += 1
+            return None
+
+        prev = 0
+        for i in range(case["n"]):
+            what = case["kinds"][i % len(case["kinds"])]
+            meth, kw, _exp = history.client_call_spec(what, 0)
+            try:
+                mid = getattr(c, meth)(**kw)
+            except Exception as e:
+                return [Violation("long-session:call-refused", f"request {i + 1} ({what}): {e!r}")]
+            data = c.data_to_send()
+            if type(mid) is not int or mid <= prev:
+                return [Violation("long-session:id-not-positive-increasing", f"request {i + 1}: id {mid!r} after {prev}")]
+            prev = mid
+            try:
+                m, _devs = rfc4511.decode(data)
+            except rfc4511.DecodeError as e:
+                return [Violation("long-session:emitted-undecodable", f"request {i + 1} id {mid}: {e} bytes {data[:40].hex()}")]
+            if m["id"] != mid:
+                return [Violation("long-session:id-on-wire-differs", f"request {i + 1}: returned {mid}, bytes carry {m['id']} ({data[:12].hex()})")]
+            issued.append((mid, what))
+            v = answer(len(issued) - case["lag"])
+            if v:
+                return [v]
+        v = answer(len(issued))
+        if v:
+            return [v]
+        # every id is now completed: a response for any of them is a protocol error
+        mid = issued[case["probe"] % len(issued)][0]
+        late = rfc4511.encode({"kind": "extendedResp", "id": mid, "controls": [], "result": {"code": 0, "matched": "", "diag": "", "referral": None}, "name": None, "value": None})
+        try:
+            c.receive(late)
+            return [Violation("long-session:response-for-completed-id-accepted", f"id {mid} of {len(issued)} requests")]
+        except ProtocolError:
+            pass
+        except Exception as e:
+            return [Violation("long-session:completed-id-wrong-error", f"id {mid}: {e!r}")]
+        return []
+
+
 PROP = Property(
     id="C09",
     rule=(
@@ -50,9 +132,12 @@ PROP = Property(
         "progress until its done message, everything else completes on its first response); on rejection ProtocolError "
         "and CLOSED; at the end clone probes must show the model's set of operations in progress. Non-trivial = >=1 "
         "delivered response whose id is not in progress (incl. second final responses and entries after done), or ids "
-        "compared across a refused call; distinct by step list."
+        "compared across a refused call; distinct by step list. Part long-session: one client issues 130-300 (thorough: up "
+        "to 33000) search/extended requests with responses lagging 0-5 requests behind: ids positive, increasing and "
+        "equal to the id the reference decoder reads from the emitted bytes, every response for an open id accepted and "
+        "returned, a late response for a completed id rejected."
     ),
-    parts=[Client()],
+    parts=[Client(), LongSession()],
     assumptions=["as C08"],
     technique="model-based (stateful) property testing of id correlation with symbolic id classes",
 )
